@@ -116,6 +116,9 @@ FamStack(lz) == {StkG(su, mid, pr) : su \in StkSetups, mid \in StkMid(0), pr \in
 
 \* "stack1": every stack terminal ALONE in every context (small: enumerated completely, printed in both styles)
 Stk1Mid(lz) == UNION {StkCtx(x) \cup StkRep(x) : x \in StkOps}
+\* "stacke": the same with EMPTY strings on the stack (PUSH_LITERAL(""), PUSH of an optional that matched nothing): an empty
+\* entry is an entry - PEEK / POP match the empty string and succeed, PEEK_ALL runs through it, DROP removes it
+StkESetups == {SeqE(<<PushLit(<<a>>), PushLit(<<>>)>>), PushE(Opt(Str(<<b>>))), SeqE(<<PushLit(<<>>), PushE(Opt(AnyC))>>)}
 \* "stackdeep": two backtracking points nested - an inner construct that COMMITS stack changes inside an outer one that
 \* then fails (or is a predicate), followed by a probe;  r = { SETUP ~ OUTER(x1 ~ x2 ~ INNER(x3 ~ x4)) ~ PROBE }
 DeepOps == {DropT, PopT, PushLit(<<c>>), PushE(Str(<<a>>)), PeekT}
@@ -142,6 +145,7 @@ HasIdxSlice(e) ==
     [] OTHER -> FALSE
 FamStackWF(lz) == {g \in FamStack(0) : ~(g.r.body.es[1].k = "opt" /\ HasIdxSlice(g.r.body.es[2]))}
 FamStack1(lz) == {g \in {StkG(su, mid, pr) : su \in StkSetups, mid \in Stk1Mid(0), pr \in StkProbes} : ~(g.r.body.es[1].k = "opt" /\ HasIdxSlice(g.r.body.es[2]))}
+FamStackE(lz) == {g \in {StkG(su, mid, pr) : su \in StkESetups, mid \in Stk1Mid(0), pr \in StkProbes} : ~HasIdxSlice(g.r.body.es[2]) \/ g.r.body.es[1].k = "seq"}
 
 \* ---- family "trivfx": implicit rules with effects (C01, C04, C05, C06) ------------------------------
 \*   cmr    : COMMENT = _{ co ~ (!">" ~ ANY)* ~ ">" }   co = { "<" }   a silent comment whose opener is a rule: an
@@ -176,6 +180,17 @@ CiBodies(lz) == CiAtoms \cup {AltE(<<x, y>>) : x \in CiAtoms, y \in CiAtoms} \cu
                 \cup {SeqE(<<x, y, Eoi>>) : x \in CiAtoms, y \in CiAtoms} \cup {AltE(<<x, y, z>>) : x \in {IStr(<<kk, ss>>), IStr(<<ss>>), Str(<<kk>>)}, y \in CiAtoms, z \in {IStr(<<kk>>), Str(<<ss, ss>>), IStr(<<eszett>>)}}
 FamCi(lz) == {[r |-> Rule("", x)] : x \in CiBodies(0)}
 CiAlpha == {kk, KK, kelvin, ss, SS, longs, eszett, Eszett}
+
+\* ---- family "bounds": every bounded repetition with small bounds, degenerate ones included (C03, C04, C07) ----
+\*   e{0}, e{,0}, e{0,0} match the empty string; e{0,n} = e{,n}; e{n,n} = e{n}; each behaves as its unrolled sequence,
+\*   also where trivia sits at the edge of the repetition
+BdOperands == {Str(<<a>>), Ref("s"), SeqE(<<Str(<<a>>), Opt(Str(<<a>>))>>)}
+BdReps(x) == {Exact(x, n) : n \in 0..2} \cup {MinR(x, n) : n \in 0..2} \cup {MaxR(x, n) : n \in 0..2}
+             \cup {MinMax(x, lo, hi) : lo \in 0..2, hi \in 0..3}
+BdWF(e) == e.k # "minmax" \/ (e.m <= e.n /\ e.n - e.m <= 2)
+BdBodies(lz) == UNION {{rp, SeqE(<<Str(<<a>>), rp, Str(<<a>>)>>), SeqE(<<rp, Str(<<a>>)>>), SeqE(<<Str(<<a>>), rp>>), SeqE(<<rp, Eoi>>), Opt(SeqE(<<rp, Ref("s")>>))}
+                       : rp \in UNION {{y \in BdReps(x) : BdWF(y)} : x \in BdOperands}}
+FamBounds(lz) == {TrG(x, m0, "", "", cfg) : x \in BdBodies(0), m0 \in {"", "@"}, cfg \in {"none", "ws", "WS", "cm"}}
 
 \* ---- family "tags": C01 (tags are compared between interpreter and generated code) ----
 \*   r = { BODY }   s = { "a" ~ "b"? }   v = _{ #t3 = s }     + silent WHITESPACE
@@ -282,15 +297,17 @@ Grammars ==
     [] Family = "mods"    -> FamMods(0)
     [] Family = "stack"   -> FamStackWF(0)
     [] Family = "stack1"  -> FamStack1(0)
+    [] Family = "stacke"  -> FamStackE(0)
     [] Family = "stackdeep" -> FamStackDeep(0)
     [] Family = "tags"    -> FamTags(0)
     [] Family = "trivfx"  -> FamTrivFx(0)
     [] Family = "ci"      -> FamCi(0)
+    [] Family = "bounds"  -> FamBounds(0)
 
 Alpha ==
   CASE Family \in {"core2", "core3", "core2nosoi", "core3nosoi"} -> CoreAlpha
     [] Family \in {"trivia2", "trivia3", "mods"} -> TrAlpha
-    [] Family \in {"stack", "stack1"} -> StkAlpha
+    [] Family \in {"stack", "stack1", "stacke"} -> StkAlpha
     [] Family = "stackdeep" -> {a, b, c}
     [] Family = "tags" -> {a, b, sp}
     [] Family \in {"optsq", "optsk", "optinl"} -> {a, b, sp, A}
@@ -298,6 +315,7 @@ Alpha ==
     [] Family = "nl" -> {a, b, nl, sp}
     [] Family = "names" -> {a, b, sp}
     [] Family = "trivfx" -> TrAlpha
+    [] Family = "bounds" -> {a, sp, lt, gt}
     [] Family = "ci" -> CiAlpha
 
 Inputs == Strings(Alpha, MaxLen)
